@@ -413,7 +413,7 @@ def run(run, model):
     run.try_rule(r09_8, model)
     run.try_rule(r09_6, model)
     from rules import c01
-    run.try_rule(c01.r01_5, model)
+    run.try_rule(c01.r01_5, model, ("crates/compiler/src/go/dce.rs", "crates/compiler/src/go/compile.rs", "crates/compiler/src/anf.rs", "crates/compiler/src/lift.rs", "crates/compiler/src/mono.rs"))
     run.try_rule(r09_1, model)
     run.try_rule(r09_2, model)
     run.try_rule(r09_3, model)
